@@ -124,6 +124,11 @@ def gen_cases(tier, seed):
         c.update(kw)
         cases.append(c)
 
+    # spline-plan tables with non-default options (spline_size != nalpha, no-raise / smooth cut-off): index stays inside
+    # the table, clipping is continuous; half of them in ASan workers (an index outside the table is an OOB read)
+    for i in range(4 * m):
+        add("splineplan", "splineplan", weight=1.0, threads=2, n=6, start=i)
+        add("asan-splineplan", "asan-splineplan", variant="asan", weight=2.0, threads=2, n=6, start=i)
     # (i) bookkeeping
     for i in range(6 * m):
         add("book-settings", "book-settings", weight=1.0, threads=1, start=i, n=len(BOOK_CLASSES))
@@ -260,6 +265,15 @@ def run_case(case, rec):
         boot.MODE["strict"] = False
     if strict:
         _check_strict(rec, boot.STRICT_ERRORS[n0:])
+
+
+def _run_splineplan(case, rec, rng):
+    from vlib import planprobe
+    cfgs = [planprobe.probe(rec, rng) for _ in range(case["n"])]
+    rec.set_sample({"kind": "splineplan", "configs": cfgs})
+
+
+_run_asan_splineplan = _run_splineplan
 
 
 def _dense_permuted(shape, strides, itemsize=8):
